@@ -34,6 +34,7 @@ VERIF = os.path.dirname(os.path.dirname(os.path.abspath(__file__)))
 PROP = "C06"
 
 import numpy  # noqa: E402
+import numpy as np  # noqa: E402
 import robotools  # noqa: E402
 from robotools import EvoWorklist, FluentWorklist, Labware, Trough  # noqa: E402
 from robotools.worklists.exceptions import InvalidOperationError  # noqa: E402
@@ -97,7 +98,9 @@ def plate_pos(rows, well):
 def check_helper(c):
     v, m = c["v"], c["max"]
     try:
-        r = partition_volume(float(v), max_volume=m)
+        # integral volumes are also handed over as Python int / numpy integer / element of an int array ("as")
+        arg = {"int": lambda: int(v), "npint": lambda: np.int64(int(v)), "nparr": lambda: np.array([int(v)])[0]}.get(c.get("as"), lambda: float(v))()
+        r = partition_volume(arg, max_volume=m)
     except Exception as e:  # noqa
         return [f"partition_volume({v!r}, max_volume={m!r}) raised {type(e).__name__}: {e}"]
     r = [float(s) for s in r]
@@ -152,6 +155,10 @@ def check_transfer(c):
         wl = DEVICES[c["device"]](max_volume=m, auto_split=True, diti_mode=c.get("diti", False))
     wells = [f"{'ABCDEFGH'[i]}01" for i in range(n)]
     v_arg = vols[0] if n == 1 and c.get("scalar") else vols
+    if c.get("as") == "int":
+        v_arg = int(v_arg) if not isinstance(v_arg, list) else [int(x) for x in v_arg]
+    elif c.get("as") in ("npint", "nparr"):
+        v_arg = np.int64(int(v_arg)) if not isinstance(v_arg, list) else np.array([int(x) for x in v_arg])
     try:
         wl.transfer(src, wells[0] if n == 1 else wells, dst, wells[0] if n == 1 else wells, v_arg,
                     wash_scheme=c.get("wash", 1), partition_by=c.get("partition_by", "auto"))
@@ -323,6 +330,20 @@ def gen_enumerated(tier):
                 continue
             seen.add(v)
             yield {"kind": "helper", "v": v, "max": m}
+    # integral volumes in integer representations against non-integer limits (the step vector must not inherit an integer type)
+    for m in [x for x in DYADIC + OTHER if float(x) != int(x)]:
+        for k in ks[:14]:
+            for v in {math.floor(k * m), math.floor(k * m) - 1, math.ceil(k * m), k * math.floor(m) + 1}:
+                if v > 0 and (is_dyadic(m) or not near_multiple(v, m)):
+                    for rep in ("int", "npint", "nparr"):
+                        yield {"kind": "helper", "v": v, "max": m, "as": rep}
+        for dev in DEVICES:
+            for k in (2, 3, 5):
+                v = math.floor(k * m)
+                if v > 0 and (is_dyadic(m) or not near_multiple(v, m)):
+                    for rep in ("int", "npint"):
+                        yield {"kind": "transfer", "device": dev, "vols": [v], "max": m, "scalar": True, "as": rep}
+                        yield {"kind": "transfer", "device": dev, "vols": [v, max(1, v - 1)], "max": m, "as": rep}
     # end-to-end on both devices at the same boundaries (smaller k range)
     for dev in DEVICES:
         for m in DYADIC + OTHER:
